@@ -205,4 +205,3 @@ func (i *IRCServer) VerifApply(msg *robust.Message) (replies []*robust.Message, 
 	}
 	return replies, nil
 }
-
